@@ -18,6 +18,11 @@ package jrpc2
 // then context.DeadlineExceeded, then SystemError.
 //@ pure errorCodeSpec(e Iface) Int = e == nil ? NoError : (hasCoder(e) ? codeOf(firstCoder(e)) : (chainHas(e, context.Canceled) ? Cancelled : (chainHas(e, context.DeadlineExceeded) ? DeadlineExceeded : SystemError)))
 
+// validErr(e): the objects an error value refers to exist: its first ErrCoder
+// (found by errors.As in its chain) and, for an *Error, the Error itself, which
+// is not a nil pointer. Part of valid(err) for values produced by user code.
+//@ pure validErr(e Iface) Bool = (hasCoder(e) ==> allocated(ival(firstCoder(e)))) && (typeis(e, "*jrpc2.Error") ==> ival(e) != 0 && allocated(ival(e)))
+
 //@ iface ErrCoder.ErrCode
 //@   ensures result == codeOf(self)
 
@@ -83,6 +88,7 @@ package jrpc2
 //@ role param (*Server).invoke.h
 //@   modifies handlerRuns
 //@   ensures handlerRuns == old(handlerRuns) + 1
+//@   ensures validErr(result1)
 
 // ---------------------------------------------------------------------------
 // Concurrency limit (C06), context population (C17)
@@ -109,6 +115,7 @@ package jrpc2
 //@   ensures[C06:released] semHeld(s.sem) == old(semHeld(s.sem))
 //@   ensures[C06:at-most-once] handlerRuns == old(handlerRuns) || handlerRuns == old(handlerRuns) + 1
 //@   ensures[C06:cancelled-waiter] handlerRuns == old(handlerRuns) ==> result0 == nil && result1 != nil
+//@   ensures[C14:valid-error] validErr(result1)
 
 // Handler values are invoked only by Server.invoke (and, on the client side,
 // by the OnCallback adapter), so the semaphore bracket covers every handler
@@ -420,9 +427,10 @@ package jrpc2
 //@   requires wfServer(s) && held(s.mu) && Server_mu_inv(s) && forall(i int, 0 <= i && i < len(next) ==> next[i] != nil)
 //@   modifies map(s.used), fired, assignCalls
 //@   ensures[C01:one-task-per-member] len(result) == len(next)
-//@   ensures[C01:task-shape] forall(i int, 0 <= i && i < len(result) ==> taskOK(result[i]) && result[i].batch == next[i].batch && result[i].hreq.method == next[i].M && result[i].hreq.params == next[i].P)
+//@   ensures[C01:task-shape] forall(i int, 0 <= i && i < len(result) ==> taskOK(result[i]) && allocated(result[i]) && result[i].batch == next[i].batch && result[i].hreq.method == next[i].M && result[i].hreq.params == next[i].P)
 //@   ensures[C02:invalid-never-runs] forall(i int, 0 <= i && i < len(result) ==> (next[i].err != nil ==> result[i].err != nil && result[i].m == nil))
 //@   ensures[C02:empty-method-never-runs] forall(i int, 0 <= i && i < len(result) ==> (next[i].M == "" ==> result[i].err != nil && result[i].m == nil))
+//@   ensures[C14:valid-errors] forall(i int, 0 <= i && i < len(result) ==> validErr(result[i].err))
 //@   ensures[C07:others-undisturbed] forall(k string, old(in(s.used, k)) ==> in(s.used, k) && lookup(s.used, k) == old(lookup(s.used, k)))
 //@   ensures[C07:nothing-fired-of-others] forall(f Int, (exists(k string, old(in(s.used, k)) && old(lookup(s.used, k)) == f)) ==> fired(f) == old(fired(f)))
 //@   ensures[C07:reserved-only-for-runnable] forall(k string, in(s.used, k) && !old(in(s.used, k)) ==> exists(j int, 0 <= j && j < len(result) && result[j].m != nil && result[j].err == nil && str(result[j].hreq.id) == k))
@@ -431,14 +439,14 @@ package jrpc2
 //@   loop 1 invariant forall(j int, 0 <= j && j < len(ts) ==> ids[j] == str(ts[j].hreq.id))
 //@   loop 1 invariant forall(j int, 0 <= j && j < len(ts) ==> ts[j] != nil && isnew(ts[j]) && allocated(ts[j]) && ts[j].hreq != nil && allocated(ts[j].hreq) && isnew(ts[j].hreq) && ts[j].m == nil)
 //@   loop 1 invariant forall(j int, 0 <= j && j < len(ts) ==> ts[j].batch == next[j].batch && ts[j].hreq.method == next[j].M && ts[j].hreq.params == next[j].P)
-//@   loop 1 invariant forall(j int, 0 <= j && j < len(ts) ==> (next[j].err != nil ==> ts[j].err != nil))
+//@   loop 1 invariant forall(j int, 0 <= j && j < len(ts) ==> (next[j].err != nil ==> ts[j].err != nil) && validErr(ts[j].err))
 //@   loop 1 invariant forall(k string, in(dup, k) ==> lookup(dup, k) != nil && isnew(lookup(dup, k)) && allocated(lookup(dup, k)))
 //@   loop 1 invariant forall(j1 int, j2 int, 0 <= j1 && j1 < j2 && j2 < len(ts) ==> ts[j1] != ts[j2])
 //@   loop 1 invariant forall(j int, 0 <= j && j < len(ts) && ts[j].err == nil && ids[j] != "" ==> in(dup, ids[j]) && lookup(dup, ids[j]) == ts[j] && !in(s.used, ids[j]))
 //@   loop 2 invariant Server_mu_inv(s) && len(ts) == len(next) && len(ids) == len(ts)
 //@   loop 2 invariant forall(j int, 0 <= j && j < len(ts) ==> ts[j] != nil && isnew(ts[j]) && allocated(ts[j]) && ts[j].hreq != nil && allocated(ts[j].hreq))
 //@   loop 2 invariant forall(j int, 0 <= j && j < len(ts) ==> ts[j].batch == next[j].batch && ts[j].hreq.method == next[j].M && ts[j].hreq.params == next[j].P)
-//@   loop 2 invariant forall(j int, 0 <= j && j < len(ts) ==> (next[j].err != nil ==> ts[j].err != nil))
+//@   loop 2 invariant forall(j int, 0 <= j && j < len(ts) ==> (next[j].err != nil ==> ts[j].err != nil) && validErr(ts[j].err))
 //@   loop 2 invariant forall(j int, 0 <= j && j <= rangeindex ==> taskOK(ts[j]) && (next[j].err != nil || next[j].M == "" ==> ts[j].m == nil))
 //@   loop 2 invariant forall(j int, rangeindex < j && j < len(ts) ==> ts[j].m == nil)
 //@   loop 2 invariant forall(j int, 0 <= j && j < len(ts) ==> ids[j] == str(ts[j].hreq.id))
@@ -484,3 +492,77 @@ package jrpc2
 //@   ensures[C08:unlocked] !held(s.mu)
 //@   at defer.Unlock#1 assert[C07:reservations-kept] forall(k string, in(s.used, k) == atlock(in(s.used, k)) && lookup(s.used, k) == atlock(lookup(s.used, k)))
 //@   at defer.Unlock#1 assert[C07:fires-only-target] forall(f Int, !(atlock(in(s.used, id)) && f == atlock(lookup(s.used, id))) ==> fired(f) == atlock(fired(f)))
+
+// nbar (the notification barrier) is used without the mutex by design. That
+// its counter never goes negative needs the counting argument "notes == number
+// of runnable notifications of the batch", which is not under contract
+// (DESIGN, C03 undecided clauses): its Done calls are exempt from the debt rule.
+//@ axiom forall(s *Server, wgUntracked(fieldaddr(s, nbar)))
+
+// dispatchLocked: validates the batch, then passes the notification barrier
+// (exactly once, before the dispatcher exists), then builds the dispatcher.
+//@ func (*Server).dispatchLocked
+//@   requires wfServer(s) && held(s.mu) && Server_mu_inv(s) && forall(i int, 0 <= i && i < len(next) ==> next[i] != nil)
+//@   modifies monitor(Server, s), fired, assignCalls, wgDebt(fieldaddr(s, nbar))
+//@   fresh result
+//@   ensures[C03:barrier-before-dispatch] called("call.waitForBarrier#1") && result != nil
+//@   ensures[C08:relocked] held(s.mu) && Server_mu_inv(s)
+
+// The dispatcher: runs the runnable tasks (the last one inline, the others in
+// goroutines it joins), then builds the reply once and delivers it.
+//@ func (*Server).dispatchLocked$1
+//@   captures wfServer(s) && forall(i int, 0 <= i && i < len(tasks) ==> taskOK(tasks[i]) && allocated(tasks[i]) && validErr(tasks[i].err))
+//@   requires !held(s.mu)
+//@   modifies monitor(Server, s), fired, chSends(ch), held(s.mu), semHeld, handlerRuns, todo, wgDebt(fieldaddr(s, nbar))
+//@   at call.invoke#1 assert[C01:only-runnable-inline] arg2 != nil && arg3 != nil && arg1 != nil
+//@   at call.Done#1 assert[C03:done-after-handler] called("call.invoke#1")
+//@   at call.responses#1 assert[C01:joined-before-reply] called("call.Wait#1")
+//@   at call.deliver#1 assert[C01:reply-built-once] called("call.responses#1")
+//@   ensures[C08:unlocked] !held(s.mu)
+//@   loop 1 invariant !held(s.mu) && forall(i int, 0 <= i && i < len(tasks) ==> tasks[i] != nil && tasks[i].hreq != nil && allocated(tasks[i]) && (tasks[i].err == nil ==> tasks[i].m != nil && tasks[i].ctx != nil) && validErr(tasks[i].err))
+
+// One handler goroutine: exactly one invoke of its own task, outcome stored in
+// that task, barrier signalled only afterwards, Done paid last.
+//@ func (*Server).dispatchLocked$1$1
+//@   root
+//@   transfer wgDebt(wg), 1
+//@   captures wfServer(s) && wg != nil && t != nil && t.hreq != nil && t.m != nil && t.ctx != nil
+//@   modifies t.val, t.err, wgDebt(wg), semHeld, handlerRuns, wgDebt(fieldaddr(s, nbar))
+//@   at call.Done#1 assert[C03:done-after-handler] called("call.invoke#1")
+//@   ensures[C01:one-invocation] handlerRuns <= 1 && wgDebt(wg) == 0 && called("call.invoke#1")
+//@   ensures[C14:valid-error] validErr(t.err)
+
+// ---------------------------------------------------------------------------
+// Reply construction (C01 C02 C14)
+// ---------------------------------------------------------------------------
+
+// reports(t): t must be answered - it has an id, or it failed validation in a
+// way that is reported even without one (-32700 / -32600).
+//@ pure reports(t *task) Bool = t.hreq.id != nil || errorCodeSpec(t.err) == ParseError || errorCodeSpec(t.err) == InvalidRequest
+// errFor(e, err): e is the wire error for the handler/validation error err:
+// an *Error travels as itself; anything else keeps its code (InternalError if
+// it has none) and its message.
+//@ pure errFor(e *Error, err Iface) Bool = e != nil && (typeis(err, "*jrpc2.Error") ? e == unboxas(err, "*jrpc2.Error") : e.Code == (errorCodeSpec(err) != NoError ? errorCodeSpec(err) : InternalError) && e.Message == errText(err))
+// respFor(r, t): r is the response object for task t.
+//@ pure respFor(r *jmessage, t *task) Bool = r != nil && r.batch == t.batch && (t.hreq.id != nil ? r.ID == t.hreq.id : (len(r.ID) == 4 && r.ID[0] == 'n' && r.ID[1] == 'u' && r.ID[2] == 'l' && r.ID[3] == 'l')) && (t.err == nil ? r.R == t.val && r.E == nil : r.R == nil && errFor(r.E, t.err)) && ((r.err != nil) == (t.m == nil)) && r.M == "" && r.P == nil
+
+// responses: exactly the reporting tasks, in task order, each with its own id
+// (or null), batch flag and outcome; id-less tasks are answered only for
+// -32700 / -32600. src / dst are the ghost index maps reply -> task, task -> reply.
+//@ func (tasks).responses
+//@   requires rpcLog != nil && forall(i int, 0 <= i && i < len(ts) ==> ts[i] != nil && ts[i].hreq != nil && allocated(ts[i]))
+//@   requires forall(i int, 0 <= i && i < len(ts) ==> validErr(ts[i].err))
+//@   ghostvar src ArrInt
+//@   ghostvar dst ArrInt
+//@   at call.append#1 ghostset src = store(src, len(rsps), rangeindex + 1)
+//@   at call.append#1 ghostset dst = store(dst, rangeindex + 1, len(rsps))
+//@   ensures[C01:each-reply-is-a-tasks] forall(i int, 0 <= i && i < len(result) ==> 0 <= src[i] && src[i] < len(ts) && respFor(result[i], ts[src[i]]) && reports(ts[src[i]]))
+//@   ensures[C01:request-order] forall(i1 int, i2 int, 0 <= i1 && i1 < i2 && i2 < len(result) ==> src[i1] < src[i2])
+//@   ensures[C01:every-reporting-task-once] forall(j int, 0 <= j && j < len(ts) && reports(ts[j]) ==> 0 <= dst[j] && dst[j] < len(result) && src[dst[j]] == j)
+//@   ensures[C01:no-reply-to-notification] forall(j int, 0 <= j && j < len(ts) && !reports(ts[j]) ==> forall(i int, 0 <= i && i < len(result) ==> src[i] != j))
+//@   loop 1 invariant len(rsps) <= rangeindex + 1
+//@   loop 1 invariant forall(i int, 0 <= i && i < len(rsps) ==> 0 <= src[i] && src[i] <= rangeindex && rsps[i] != nil && isnew(rsps[i]) && allocated(rsps[i]) && allocated(rsps[i].E))
+//@   loop 1 invariant forall(i int, 0 <= i && i < len(rsps) ==> reports(ts[src[i]]))
+//@   loop 1 invariant forall(i int, 0 <= i && i < len(rsps) ==> respFor(rsps[i], ts[src[i]]))
+//@   loop 1 invariant forall(i1 int, i2 int, 0 <= i1 && i1 < i2 && i2 < len(rsps) ==> src[i1] < src[i2])
+//@   loop 1 invariant forall(j int, 0 <= j && j <= rangeindex && reports(ts[j]) ==> 0 <= dst[j] && dst[j] < len(rsps) && src[dst[j]] == j)
